@@ -96,6 +96,63 @@ def summed_forms(ctx):
                 ctx.hit('summed-form-compiled-elementwise:' + name, {"reported": float(val), "true_sum": true}, case)
             else:
                 ctx.count('summed:ok')
+    # 2-D arguments: sums over one axis, over one axis and then the other, after an addition that broadcasts; perspective atoms
+    r = np.random.default_rng(20260929)
+    for name, f, g in (('exp', rso.exp, np.exp), ('log', rso.log, np.log)):
+        for form in ('axis0', 'axis1', 'axis1-then-axis0', 'axis0-then-all', 'broadcast-add', 'broadcast-add-axis0', 'scaled'):
+            ctx.search_cases += 1; ctx.evaluations += 1
+            X0 = r.choice([0.5, 0.75, 1.0, 1.5, 2.0], (2, 3)); x0 = X0[0]
+            case = {"summed": name, "form": form, "X0": X0.tolist()}
+            sg = 1.0 if name == 'exp' else -1.0
+            try:
+                m = ro.Model(); X = m.dvar((2, 3)); x = m.dvar(3)
+                if form == 'axis0':
+                    e, true = f(X).sum(axis=0), g(X0).sum(axis=0)
+                elif form == 'axis1':
+                    e, true = f(X).sum(axis=1), g(X0).sum(axis=1)
+                elif form == 'axis1-then-axis0':
+                    e, true = f(X).sum(axis=1).sum(axis=0), g(X0).sum()
+                elif form == 'axis0-then-all':
+                    e, true = f(X).sum(axis=0).sum(), g(X0).sum()
+                elif form == 'broadcast-add':
+                    e, true = (f(x) + sg * np.ones((2, 3))).sum(), (g(x0) + sg * np.ones((2, 3))).sum()
+                elif form == 'broadcast-add-axis0':
+                    e, true = (f(x) + sg * X).sum(axis=0), (g(x0) + sg * X0).sum(axis=0)
+                else:
+                    e, true = (2 * f(X) + sg * 1.0).sum(axis=1), (2 * g(X0) + sg * 1.0).sum(axis=1)
+                true = np.atleast_1d(np.asarray(true, dtype=float))
+                t = m.dvar(true.shape)
+                if name == 'exp':
+                    m.min(t.sum()); m.st(e <= (t if true.size > 1 else t[0]))
+                else:
+                    m.max(t.sum()); m.st(e >= (t if true.size > 1 else t[0]))
+                m.st(X == X0, x == x0)
+                C.solve_model(m)
+                got = np.atleast_1d(np.asarray(t.get(), dtype=float))
+            except C.SkipCase:
+                ctx.count('summed:skipped'); continue
+            except Exception as ex:
+                ctx.count('summed:raises:' + form + ':' + type(ex).__name__); continue
+            if got.shape != true.shape or np.max(np.abs(got - true)) > 1e-4 * (1 + np.max(np.abs(true))):
+                ctx.hit('summed-form-wrong:' + name + ':' + form, {"reported": got.tolist(), "numpy": true.tolist()}, case)
+            else:
+                ctx.count('summed:ok:' + form)
+    for nm_, bld, npf in (('pexp', lambda a: rso.pexp(a, 2.0), lambda v: 2.0 * np.exp(v / 2.0)), ('plog', lambda a: rso.plog(a, 2.0), lambda v: 2.0 * np.log(v / 2.0))):
+        ctx.search_cases += 1; ctx.evaluations += 1
+        x0 = np.array([0.75, 1.0, 2.5]); case = {"summed": nm_}
+        try:
+            m = ro.Model(); x = m.dvar(3); t = m.dvar()
+            if nm_ == 'pexp':
+                m.min(t); m.st(bld(x).sum() <= t)
+            else:
+                m.max(t); m.st(bld(x).sum() >= t)
+            m.st(x == x0)
+            val = C.solve_model(m)
+        except Exception as ex:
+            ctx.count('summed:raises:' + nm_ + ':' + type(ex).__name__); continue        # refusing the sum of a perspective atom is fine
+        true = float(npf(x0).sum())
+        if abs(val - true) > 1e-4 * (1 + abs(true)):
+            ctx.hit('summed-form-wrong:' + nm_, {"reported": float(val), "numpy": true}, case)
 
 
 def persp_probe(ctx, seed):
